@@ -283,7 +283,15 @@ func validateURI(uri string) error {
 		return errors.New("service endpoint URI is empty")
 	}
 
-	if _, err := url.ParseRequestURI(uri); err != nil {
+	// ParseRequestURI reads an HTTP request target: it does not know fragments, so that in
+	// "https://example.com#didcomm" the fragment ended up in the host name
+	withoutFragment, _, _ := strings.Cut(uri, "#")
+
+	if _, err := url.ParseRequestURI(withoutFragment); err != nil {
+		return fmt.Errorf("service endpoint '%s' is not a valid URI: %s", uri, err.Error())
+	}
+
+	if _, err := url.Parse(uri); err != nil {
 		return fmt.Errorf("service endpoint '%s' is not a valid URI: %s", uri, err.Error())
 	}
 
